@@ -15,6 +15,9 @@ ISO = {"base": ("none", 0), "tramp": ("none", 1), "rimiss": ("rimiss", 1), "rimi
        "fixer": ("fixer", 1)}
 
 
+RUNNERS = {}
+
+
 def read_files():
     out = {}
     for k in ("int", "jit", "data", "ss"):
@@ -50,7 +53,13 @@ def run(job):
             from toccata.runner import Runner
             iso, tr = ISO[v]
             inp = dict(cfg, isolation_solution=iso, uses_trampolines=tr, core="rocket", max_cycles=1)
-            r = Runner()
+            # toccata.cli.main drives all the runs of a campaign through ONE Runner: jobs that carry the same
+            # "runner_key" share a Runner instance (records must not depend on earlier runs of that Runner)
+            key = job.get("runner_key")
+            if key is None:
+                r = Runner()
+            else:
+                r = RUNNERS.setdefault(key, Runner())
             gd, jd = r.generate_binary(seed, inp)
             res["generation_data"], res["jit_elements_data"], res["generation_ok"] = gd, jd, r.generation_ok
         elif job["fe"] == "cli_main":
